@@ -17,7 +17,7 @@
 (* (stream API) 8*P bytes.  Everything else must be an error.                  *)
 EXTENDS Integers, Sequences, FiniteSets, TLC, Json
 
-CONSTANTS Mode,   \* "enc" | "hdr" | "fields" | "trunc"
+CONSTANTS Mode,   \* "enc" (values) | "dec" (byte strings: dimension grid, other fields, truncations)
           Seed, Emit
 
 VARIABLE val
@@ -119,7 +119,7 @@ DimVals == {MinusOne, MinI64, Zero, I(1), I(2), I(3), P31, P32, P61, P62, MaxI64
 Payload(k) == [i \in 1 .. k |-> (i * 37 + Seed) % 256]
 PayLens(r, c) == {0, 8, 16, 24, 48} \cup
                  (IF Fits(r, c) THEN {8 * Val(r) * Val(c) + d : d \in {-8, -1, 0, 1, 8}} ELSE {})
-HdrSpace == IF Mode # "hdr" THEN {} ELSE
+HdrSpace == IF Mode # "dec" THEN {} ELSE
             UNION {{HdrBytes(GoodHdr(d[1], d[2])) \o Payload(k) : k \in PayLens(d[1], d[2]) \cap Nat}
                      : d \in DimVals \X DimVals}
 
@@ -128,18 +128,17 @@ FieldAlts == [version : {<<1,0,0,0>>, <<0,0,0,0>>, <<2,0,0,0>>, <<1,0,0,1>>, <<0
               form : {71, 83, 84, 0}, packing : {70, 66, 80}, uplo : {65, 85, 76}, unit : {0, 1, 2},
               ku : {Zero, I(1), MinusOne}, kl : {Zero, I(1)}]
 Differs(f) == Cardinality({k \in DOMAIN f : f[k] # GoodHdr(Zero, Zero)[k]})
-FieldSpace == IF Mode # "fields" THEN {} ELSE
+FieldSpace == IF Mode # "dec" THEN {} ELSE
               {HdrBytes([version |-> f.version, form |-> f.form, packing |-> f.packing, uplo |-> f.uplo,
                          unit |-> f.unit, rows |-> I(d[1]), cols |-> I(d[2]), ku |-> f.ku, kl |-> f.kl])
                  \o Payload(8 * d[1] * d[2]) : f \in {g \in FieldAlts : Differs(g) <= 2}, d \in {<<2, 3>>, <<3, 1>>}}
 
 \* every truncation and every one-byte extension of valid encodings
-TruncSpace == IF Mode # "trunc" THEN {} ELSE
+TruncSpace == IF Mode # "dec" THEN {} ELSE
               UNION {{SubSeq(b, 1, k) : k \in 0 .. Len(b)} \cup {Append(b, 7)}
                        : b \in {EncDense(Mat(2, 2, 0)), EncDense(Mat(1, 1, 3)), EncVec(Mat(3, 1, 1)), EncDense(Mat(1, 3, 2))}}
 
-Init == val \in CASE Mode = "enc" -> EncSpace [] Mode = "hdr" -> HdrSpace
-               [] Mode = "fields" -> FieldSpace [] Mode = "trunc" -> TruncSpace
+Init == val \in IF Mode = "enc" THEN EncSpace ELSE HdrSpace \cup FieldSpace \cup TruncSpace
 Next == UNCHANGED val
 Spec == Init /\ [][Next]_vars
 
